@@ -1181,13 +1181,14 @@ impl Transaction {
             //
             // outputs that have fallen out of the genesis window were either rebroadcast
             // or collected as fees by the block that followed the window, so they can
-            // no longer be spent
+            // no longer be spent. the outputs of block (latest - genesis_period) are
+            // handled by the very next block, so they cannot be spent in it either
             //
             if validate_against_utxo {
                 let latest_block_id = blockchain.get_latest_block_id();
                 if self.from.iter().any(|slip| {
                     slip.amount > 0
-                        && slip.block_id.saturating_add(blockchain.genesis_period) < latest_block_id
+                        && slip.block_id.saturating_add(blockchain.genesis_period) <= latest_block_id
                 }) {
                     error!("ERROR 582041: transaction spends an input older than the genesis period");
                     return false;
